@@ -239,6 +239,277 @@ Section Certs.
     rewrite E. split; intros (F & L & NE); (split; [|split; assumption]);
       intros f Hf; apply (entry_good_gen tsa (fst f) (snd f)); now apply F.
   Qed.
+
+  (* ================= GetCertificates ================= *)
+  (* the operating system, dir.SysFS and the parser of notation-core-go as oracles *)
+  Variables SysFS FileInfo DirEntry : Type.
+  Variable sys_path_o : SysFS -> list string -> string * option err.  (* SysFS.SysPath(items...) *)
+  Variable store_dir_o : list string -> string.                       (* dir.X509TrustStoreDir(items...) *)
+  Variable lstat_o : string -> FileInfo * option err.                 (* os.Lstat *)
+  Variable not_exist_o : option err -> bool.                          (* os.IsNotExist *)
+  Variable read_dir_o : string -> list DirEntry * option err.         (* os.ReadDir *)
+  Variable join_o : list string -> string.                            (* filepath.Join(elem...) *)
+  Variable read_file_o : string -> list Cert * option err.            (* corex509.ReadCertificateFile *)
+  Variable mode_o : FileInfo -> Z.                                    (* FileInfo.Mode() *)
+  Variable name_o : DirEntry -> string.                               (* DirEntry.Name() *)
+  Variable type_o : DirEntry -> Z.                                    (* DirEntry.Type() *)
+
+  Definition GC : truststore_x509TrustStore SysFS -> string -> string -> list Cert * option err :=
+    gen_truststore_x509TrustStore_GetCertificates Cert check_sig check_from bytes_equal is_ca sig_alg
+      raw_tbs sig raw_subj raw_iss SysFS sys_path_o store_dir_o FileInfo lstat_o not_exist_o DirEntry
+      read_dir_o join_o read_file_o mode_o name_o type_o.
+  Definition GC_loop1 : string -> string -> list DirEntry -> list Cert -> list Cert * option err :=
+    gen_truststore_x509TrustStore_GetCertificates_loop1 Cert check_sig check_from bytes_equal is_ca sig_alg
+      raw_tbs sig raw_subj raw_iss DirEntry join_o read_file_o name_o type_o.
+  Definition GC_loop2 : (unit -> list Cert * option err) -> list Cert -> list Cert * option err :=
+    gen_truststore_x509TrustStore_GetCertificates_loop2 Cert check_from bytes_equal raw_subj raw_iss.
+
+  (* the two shapes a result may have: everything and no error, or nothing and an error *)
+  Definition verdict (r : list Cert * option err) (m : option (list Cert)) : Prop :=
+    match m with
+    | Some cs => r = (cs, None) /\ cs <> []
+    | None => exists e, r = ([], Some e)
+    end.
+
+  Definition roots_ok (certs : list Cert) : bool := forallb (fun c => is_none (ROOT c)) certs.
+
+  Lemma GC_loop2_ok K certs : roots_ok certs = true -> GC_loop2 K certs = K tt.
+  Proof.
+    unfold GC_loop2, roots_ok, ROOT. induction certs as [|c certs IH]; [reflexivity|].
+    cbn [gen_truststore_x509TrustStore_GetCertificates_loop2 forallb].
+    destruct (gen_truststore_isRootCACertificate Cert check_from bytes_equal raw_subj raw_iss c);
+      cbn [is_none negb andb]; [discriminate | exact IH].
+  Qed.
+
+  Lemma GC_loop2_bad K certs : roots_ok certs = false -> exists e, GC_loop2 K certs = ([], Some e).
+  Proof.
+    unfold GC_loop2, roots_ok, ROOT. induction certs as [|c certs IH]; [discriminate|].
+    cbn [gen_truststore_x509TrustStore_GetCertificates_loop2 forallb].
+    destruct (gen_truststore_isRootCACertificate Cert check_from bytes_equal raw_subj raw_iss c);
+      cbn [is_none negb andb]; [intros _; eexists; reflexivity | exact IH].
+  Qed.
+
+  (* what the parser answers for entry f of the directory at path p *)
+  Definition efile (p : string) (f : DirEntry) : list Cert * option err :=
+    read_file_o (join_o [p; name_o f]).
+
+  (* the per-entry decision of the loop, as a boolean *)
+  Definition entry_okb (tsa : bool) (p : string) (f : DirEntry) : bool :=
+    gen_fs_FileMode_IsRegular (type_o f) && is_none (snd (efile p f)) &&
+    is_none (VC (fst (efile p f))) && (negb tsa || roots_ok (fst (efile p f))).
+
+  Definition nonempty (l : list Cert) : option (list Cert) :=
+    match l with [] => None | _ => Some l end.
+
+  Definition loop_spec (tsa : bool) (p : string) (files : list DirEntry) (acc : list Cert)
+    : option (list Cert) :=
+    if forallb (entry_okb tsa p) files
+    then nonempty (acc ++ flat_map (fun f => fst (efile p f)) files) else None.
+
+  Lemma loop_spec_cons tsa p f files acc :
+    loop_spec tsa p (f :: files) acc
+    = if entry_okb tsa p f then loop_spec tsa p files (acc ++ fst (efile p f)) else None.
+  Proof.
+    unfold loop_spec. cbn [forallb flat_map]. rewrite app_assoc.
+    destruct (entry_okb tsa p f); reflexivity.
+  Qed.
+
+  Lemma GC_loop1_spec p ty files : forall acc,
+    verdict (GC_loop1 p ty files acc) (loop_spec (String.eqb ty "tsa") p files acc).
+  Proof.
+    induction files as [|f files IH]; intros acc.
+    - unfold loop_spec, GC_loop1. cbn [forallb flat_map gen_truststore_x509TrustStore_GetCertificates_loop1].
+      rewrite app_nil_r. destruct acc as [|c acc]; cbn [nonempty verdict].
+      + eexists. reflexivity.
+      + len_cmp. split; [reflexivity | discriminate].
+    - rewrite loop_spec_cons. unfold GC_loop1, entry_okb, efile, VC, roots_ok.
+      cbn [gen_truststore_x509TrustStore_GetCertificates_loop1].
+      fold GC_loop1. fold GC_loop2.
+      destruct (gen_fs_FileMode_IsRegular (type_o f)); cbn [negb andb];
+        [|eexists; reflexivity].
+      destruct (read_file_o (join_o [p; name_o f])) as [certs [e|]]; cbn [fst snd is_none negb andb];
+        [eexists; reflexivity|].
+      destruct (gen_truststore_ValidateCertificates Cert check_sig is_ca sig_alg raw_tbs sig certs);
+        cbn [is_none negb andb]; [eexists; reflexivity|].
+      destruct (String.eqb ty "tsa"); cbn [negb orb]; [|apply IH].
+      fold (roots_ok certs). destruct (roots_ok certs) eqn:R.
+      + rewrite (GC_loop2_ok _ _ R). apply IH.
+      + destruct (GC_loop2_bad (fun _ => GC_loop1 p ty files (acc ++ certs)) _ R) as [e E].
+        cbn [verdict]. exists e. exact E.
+  Qed.
+
+  Definition mode_real_dir (m : Z) : bool :=
+    gen_fs_FileMode_IsDir m && (Z.land m 134217728 (* fs.ModeSymlink *) =? 0)%Z.
+
+  (* GetCertificates as a function of the oracles' answers: Some l = success with exactly l *)
+  Definition gc_spec (fs : SysFS) (ty name : string) : option (list Cert) :=
+    if gen_truststore_isValidStoreType ty && gen_file_IsValidFileName name then
+      let '(p, e1) := sys_path_o fs [store_dir_o [ty; name]] in
+      if is_none e1 then
+        let '(fi, e2) := lstat_o p in
+        if is_none e2 && mode_real_dir (mode_o fi) then
+          let '(files, e3) := read_dir_o p in
+          if is_none e3 then loop_spec (String.eqb ty "tsa") p files [] else None
+        else None
+      else None
+    else None.
+
+  Lemma GC_spec ts ty name :
+    verdict (GC ts ty name) (gc_spec (x509TrustStore_trustStorefs SysFS ts) ty name).
+  Proof.
+    unfold GC, gc_spec, gen_truststore_x509TrustStore_GetCertificates, mode_real_dir.
+    fold GC_loop1.
+    destruct (gen_truststore_isValidStoreType ty); cbn [negb andb]; [|eexists; reflexivity].
+    destruct (gen_file_IsValidFileName name); cbn [negb andb]; [|eexists; reflexivity].
+    destruct (sys_path_o (x509TrustStore_trustStorefs SysFS ts) [store_dir_o [ty; name]]) as [p [e1|]];
+      cbn [is_none negb]; [eexists; reflexivity|].
+    destruct (lstat_o p) as [fi [e2|]]; cbn [is_none negb andb].
+    { destruct (not_exist_o (Some e2)); eexists; reflexivity. }
+    destruct (gen_fs_FileMode_IsDir (mode_o fi)); cbn [negb orb andb]; [|eexists; reflexivity].
+    destruct (Z.land (mode_o fi) 134217728 =? 0)%Z; cbn [negb]; [|eexists; reflexivity].
+    destruct (read_dir_o p) as [files [e3|]]; cbn [is_none negb]; [eexists; reflexivity|].
+    apply GC_loop1_spec.
+  Qed.
+
+  (* reading a success of the specification *)
+  Lemma loop_spec_inv tsa p files l :
+    loop_spec tsa p files [] = Some l ->
+    l <> [] /\ l = flat_map (fun f => fst (efile p f)) files /\
+    forall f, In f files ->
+      gen_fs_FileMode_IsRegular (type_o f) = true /\ snd (efile p f) = None /\
+      VC (fst (efile p f)) = None /\
+      (tsa = true -> forall c, In c (fst (efile p f)) -> ROOT c = None).
+  Proof.
+    unfold loop_spec. cbn [app].
+    assert (N : forall o : option err, is_none o = true <-> o = None)
+      by (intros [e|]; cbn; split; congruence).
+    destruct (forallb (entry_okb tsa p) files) eqn:F; [|discriminate].
+    intros H. assert (L : l = flat_map (fun f => fst (efile p f)) files).
+    { destruct (flat_map (fun f => fst (efile p f)) files); [discriminate | now inversion H]. }
+    split; [|split; [exact L|]].
+    - rewrite <- L in H. destruct l; [discriminate | discriminate].
+    - intros f Hf. rewrite forallb_forall in F. specialize (F f Hf). unfold entry_okb in F.
+      rewrite !andb_true_iff, !N in F. destruct F as [[[R E] V] T].
+      repeat split; try assumption.
+      intros -> c Hc. cbn [negb orb] in T. unfold roots_ok in T. rewrite forallb_forall in T.
+      apply N. now apply T.
+  Qed.
+
+  (* ---- GetCertificates against the model, for a world that answers like the tree ---- *)
+
+  Definition entry_agrees (p : string) (f : DirEntry) (e : string * node) : Prop :=
+    match snd e with
+    | NFile CErr => gen_fs_FileMode_IsRegular (type_o f) = true /\ snd (efile p f) <> None
+    | NFile (CCerts cs) =>
+        gen_fs_FileMode_IsRegular (type_o f) = true /\ snd (efile p f) = None /\
+        map abs (fst (efile p f)) = cs
+    | NDir _ | NLink _ => gen_fs_FileMode_IsRegular (type_o f) = false
+    end.
+
+  (* the oracles answer like the kernel on the tree [root] (lstat does not follow the last
+     component), and the parser like the contents recorded in the tree *)
+  Definition world_agrees (fs : SysFS) (root : node) : Prop :=
+    forall ty name, known_type ty -> plain_name name ->
+    exists p, sys_path_o fs [store_dir_o [ty; name]] = (p, None) /\
+      match lstat root (store_path ty name) with
+      | LNotExist | LOther => exists fi e, lstat_o p = (fi, Some e)
+      | LNode (NDir es) =>
+          exists fi files, lstat_o p = (fi, None) /\ mode_real_dir (mode_o fi) = true /\
+                           read_dir_o p = (files, None) /\ Forall2 (entry_agrees p) files es
+      | LNode _ => exists fi, lstat_o p = (fi, None) /\ mode_real_dir (mode_o fi) = false
+      end.
+
+  Definition model_verdict (r : res) (m : option (list Cert)) : Prop :=
+    match r with
+    | Loaded l => exists cs, m = Some cs /\ map abs cs = l
+    | Failed _ _ _ => m = None
+    end.
+
+  Lemma loop_spec_model tsa p files es :
+    Forall2 (entry_agrees p) files es ->
+    forall acc, model_verdict (load_entries tsa es (map abs acc)) (loop_spec tsa p files acc).
+  Proof.
+    induction 1 as [|f [nm n] files es A _ IH]; intros acc.
+    - unfold loop_spec. cbn [forallb flat_map load_entries]. rewrite app_nil_r.
+      destruct acc as [|c acc]; cbn [map nonempty model_verdict]; [reflexivity|].
+      eexists. split; reflexivity.
+    - rewrite loop_spec_cons. unfold entry_agrees in A. cbn [snd] in A. unfold entry_okb.
+      destruct n as [[|cs]|es0|t].
+      + destruct A as [-> A]. destruct (snd (efile p f)); [|congruence]. reflexivity.
+      + destruct A as (-> & -> & <-). cbn [is_none andb].
+        rewrite entry_step. fold (roots_ok (fst (efile p f))).
+        destruct (VC (fst (efile p f))); cbn [is_none andb]; [reflexivity|].
+        destruct tsa; cbn [negb orb andb].
+        * destruct (roots_ok (fst (efile p f))); cbn [negb]; [|reflexivity].
+          rewrite <- map_app. apply IH.
+        * rewrite <- map_app. apply IH.
+      + rewrite A. reflexivity.
+      + rewrite A. reflexivity.
+  Qed.
+
+  Lemma gc_spec_model fs root ty name :
+    world_agrees fs root ->
+    model_verdict (get_certificates is_valid_file_name root ty name) (gc_spec fs ty name).
+  Proof.
+    intros W. unfold gc_spec.
+    rewrite C13_gen_isValidStoreType_equiv, C13_gen_IsValidFileName_equiv.
+    destruct (is_valid_store_type ty) eqn:Ht.
+    2:{ unfold get_certificates. rewrite Ht. reflexivity. }
+    destruct (is_valid_file_name name) eqn:Hn.
+    2:{ unfold get_certificates. rewrite Ht, Hn. reflexivity. }
+    apply is_valid_store_type_spec in Ht. apply is_valid_file_name_spec in Hn.
+    rewrite get_certificates_valid by assumption. cbn [andb].
+    destruct (W ty name Ht Hn) as (p & -> & L). cbn [is_none].
+    destruct (lstat root (store_path ty name)) as [| |[c|es|t]].
+    - destruct L as (fi & e & ->). reflexivity.
+    - destruct L as (fi & e & ->). reflexivity.
+    - destruct L as (fi & -> & ->). reflexivity.
+    - destruct L as (fi & files & -> & -> & -> & F). cbn [is_none andb].
+      apply (loop_spec_model (is_tsa ty) p files es F []).
+    - destruct L as (fi & -> & ->). reflexivity.
+  Qed.
+
+  Lemma gc_spec_inv fs ty name l :
+    gc_spec fs ty name = Some l ->
+    gen_truststore_isValidStoreType ty = true /\ gen_file_IsValidFileName name = true /\
+    exists p fi files,
+      sys_path_o fs [store_dir_o [ty; name]] = (p, None) /\ lstat_o p = (fi, None) /\
+      mode_real_dir (mode_o fi) = true /\ read_dir_o p = (files, None) /\
+      loop_spec (String.eqb ty "tsa") p files [] = Some l.
+  Proof.
+    unfold gc_spec.
+    destruct (gen_truststore_isValidStoreType ty); [|discriminate].
+    destruct (gen_file_IsValidFileName name); [|discriminate]. cbn [andb].
+    destruct (sys_path_o fs [store_dir_o [ty; name]]) as [p [e1|]]; [discriminate|]. cbn [is_none].
+    destruct (lstat_o p) as [fi [e2|]] eqn:L; [discriminate|]. cbn [is_none andb].
+    destruct (mode_real_dir (mode_o fi)) eqn:M; [|discriminate].
+    destruct (read_dir_o p) as [files [e3|]] eqn:R; [discriminate|]. cbn [is_none].
+    intros H. split; [reflexivity|]. split; [reflexivity|].
+    exists p, fi, files. rewrite L. repeat split; assumption.
+  Qed.
+
+  Lemma verdict_cases r m :
+    verdict r m ->
+    (exists e, r = ([], Some e) /\ m = None) \/ (exists cs, r = (cs, None) /\ cs <> [] /\ m = Some cs).
+  Proof.
+    destruct m as [cs|]; cbn [verdict].
+    - intros [-> N]. right. exists cs. repeat split; assumption.
+    - intros [e ->]. left. exists e. split; reflexivity.
+  Qed.
+
+  Lemma GC_model ts root ty name :
+    world_agrees (x509TrustStore_trustStorefs SysFS ts) root ->
+    match get_certificates is_valid_file_name root ty name with
+    | Loaded l => exists cs, GC ts ty name = (cs, None) /\ map abs cs = l
+    | Failed _ _ _ => exists e, GC ts ty name = ([], Some e)
+    end.
+  Proof.
+    intros W. pose proof (gc_spec_model _ root ty name W) as M.
+    pose proof (GC_spec ts ty name) as V.
+    destruct (get_certificates is_valid_file_name root ty name) as [l|c k e]; cbn [model_verdict] in M.
+    - destruct M as (cs & E & A). rewrite E in V. destruct V as [V _]. exists cs. split; assumption.
+    - rewrite M in V. exact V.
+  Qed.
 End Certs.
 
 (* ---- the theorems, closed over every oracle ---- *)
@@ -384,3 +655,117 @@ Proof.
   rewrite C13_gen_isValidStoreType_known, C13_gen_IsValidFileName_plain. reflexivity.
 Qed.
 Print Assumptions C13_gen_load_iff.
+
+(* ================= GetCertificates: the theorems, closed over every oracle ================= *)
+
+(* ALL OR NOTHING on the translated body, for every behaviour of the operating system, of
+   dir.SysFS and of the parser: the result of GetCertificates is either (nil, error) or
+   (l, nil) with l non-empty and EXACTLY the certificates the parser gives for ALL the
+   entries os.ReadDir returned, in that order, every entry being a regular file that
+   parses and passes the generated validators. A partial set is impossible. *)
+Theorem C13_gen_GetCertificates_all_or_nothing :
+  forall Cert check_sig check_from bytes_equal is_ca sig_alg raw_tbs sig raw_subj raw_iss
+         SysFS sys_path_o store_dir_o FileInfo lstat_o not_exist_o DirEntry read_dir_o join_o
+         read_file_o mode_o name_o type_o ts ty name,
+    let r := gen_truststore_x509TrustStore_GetCertificates Cert check_sig check_from bytes_equal is_ca
+               sig_alg raw_tbs sig raw_subj raw_iss SysFS sys_path_o store_dir_o FileInfo lstat_o
+               not_exist_o DirEntry read_dir_o join_o read_file_o mode_o name_o type_o ts ty name in
+    let certs_of p (f : DirEntry) := fst (read_file_o (join_o [p; name_o f])) in
+    (exists e, r = ([], Some e)) \/
+    (exists l, r = (l, None) /\ l <> [] /\
+       gen_truststore_isValidStoreType ty = true /\ gen_file_IsValidFileName name = true /\
+       exists p fi files,
+         sys_path_o (x509TrustStore_trustStorefs SysFS ts) [store_dir_o [ty; name]] = (p, None) /\
+         lstat_o p = (fi, None) /\ gen_fs_FileMode_IsDir (mode_o fi) = true /\
+         Z.land (mode_o fi) 134217728 = 0%Z /\
+         read_dir_o p = (files, None) /\
+         l = flat_map (certs_of p) files /\
+         forall f, In f files ->
+           gen_fs_FileMode_IsRegular (type_o f) = true /\
+           snd (read_file_o (join_o [p; name_o f])) = None /\
+           gen_truststore_ValidateCertificates Cert check_sig is_ca sig_alg raw_tbs sig (certs_of p f) = None /\
+           (ty = "tsa" -> forall c, In c (certs_of p f) ->
+              gen_truststore_isRootCACertificate Cert check_from bytes_equal raw_subj raw_iss c = None)).
+Proof.
+  intros. subst r certs_of.
+  pose proof (GC_spec Cert check_sig check_from bytes_equal is_ca sig_alg raw_tbs sig raw_subj raw_iss
+                SysFS FileInfo DirEntry sys_path_o store_dir_o lstat_o not_exist_o read_dir_o join_o
+                read_file_o mode_o name_o type_o ts ty name) as V.
+  apply verdict_cases in V. unfold GC in V.
+  destruct V as [(e & -> & _) | (l & -> & N & S)]; [left; exists e; reflexivity|].
+  right. exists l. split; [reflexivity|]. split; [exact N|].
+  apply gc_spec_inv in S. destruct S as (Ht & Hn & p & fi & files & P & L & M & R & S).
+  split; [exact Ht|]. split; [exact Hn|]. exists p, fi, files.
+  unfold mode_real_dir in M. apply andb_true_iff in M. destruct M as [M1 M2]. apply Z.eqb_eq in M2.
+  apply loop_spec_inv in S. destruct S as (_ & E & F).
+  repeat split; try assumption.
+  - apply (F f H).
+  - apply (F f H).
+  - apply (F f H).
+  - intros T. apply (F f H). subst ty. reflexivity.
+Qed.
+Print Assumptions C13_gen_GetCertificates_all_or_nothing.
+
+(* GetCertificates as translated against the model, for every world that answers like the
+   tree of the model (lstat / readdir / parser) and every abstraction that agrees with the
+   certificate oracles: success with l iff the model loads (map abs l); failure iff it fails *)
+Theorem C13_gen_GetCertificates_equiv :
+  forall Cert check_sig check_from bytes_equal is_ca sig_alg raw_tbs sig raw_subj raw_iss abs,
+    agrees Cert check_sig check_from bytes_equal is_ca sig_alg raw_tbs sig raw_subj raw_iss abs ->
+  forall SysFS sys_path_o store_dir_o FileInfo lstat_o not_exist_o DirEntry read_dir_o join_o
+         read_file_o mode_o name_o type_o ts root,
+    world_agrees Cert abs SysFS FileInfo DirEntry sys_path_o store_dir_o lstat_o read_dir_o join_o
+                 read_file_o mode_o name_o type_o (x509TrustStore_trustStorefs SysFS ts) root ->
+  forall ty name,
+    let r := gen_truststore_x509TrustStore_GetCertificates Cert check_sig check_from bytes_equal is_ca
+               sig_alg raw_tbs sig raw_subj raw_iss SysFS sys_path_o store_dir_o FileInfo lstat_o
+               not_exist_o DirEntry read_dir_o join_o read_file_o mode_o name_o type_o ts ty name in
+    match load (mk_input ty name root) with
+    | Loaded l => exists cs, r = (cs, None) /\ map abs cs = l
+    | Failed _ _ _ => exists e, r = ([], Some e)
+    end.
+Proof.
+  intros Cert check_sig check_from bytes_equal is_ca sig_alg raw_tbs sig raw_subj raw_iss abs A
+         SysFS sys_path_o store_dir_o FileInfo lstat_o not_exist_o DirEntry read_dir_o join_o
+         read_file_o mode_o name_o type_o ts root W ty name r.
+  exact (GC_model Cert check_sig check_from bytes_equal is_ca sig_alg raw_tbs sig raw_subj raw_iss abs A
+           SysFS FileInfo DirEntry sys_path_o store_dir_o lstat_o not_exist_o read_dir_o join_o
+           read_file_o mode_o name_o type_o ts root ty name W).
+Qed.
+Print Assumptions C13_gen_GetCertificates_equiv.
+
+(* the property's main theorem (C13_iff) on the code as translated *)
+Corollary C13_gen_GetCertificates_loadable :
+  forall Cert check_sig check_from bytes_equal is_ca sig_alg raw_tbs sig raw_subj raw_iss abs,
+    agrees Cert check_sig check_from bytes_equal is_ca sig_alg raw_tbs sig raw_subj raw_iss abs ->
+  forall SysFS sys_path_o store_dir_o FileInfo lstat_o not_exist_o DirEntry read_dir_o join_o
+         read_file_o mode_o name_o type_o ts root,
+    world_agrees Cert abs SysFS FileInfo DirEntry sys_path_o store_dir_o lstat_o read_dir_o join_o
+                 read_file_o mode_o name_o type_o (x509TrustStore_trustStorefs SysFS ts) root ->
+  forall ty name,
+    let r := gen_truststore_x509TrustStore_GetCertificates Cert check_sig check_from bytes_equal is_ca
+               sig_alg raw_tbs sig raw_subj raw_iss SysFS sys_path_o store_dir_o FileInfo lstat_o
+               not_exist_o DirEntry read_dir_o join_o read_file_o mode_o name_o type_o ts ty name in
+    (forall cs, r = (cs, None) -> loadable root ty name (map abs cs)) /\
+    (forall l, loadable root ty name l -> exists cs, r = (cs, None) /\ map abs cs = l) /\
+    ((forall l, ~ loadable root ty name l) -> exists e, r = ([], Some e)).
+Proof.
+  intros Cert check_sig check_from bytes_equal is_ca sig_alg raw_tbs sig raw_subj raw_iss abs A
+         SysFS sys_path_o store_dir_o FileInfo lstat_o not_exist_o DirEntry read_dir_o join_o
+         read_file_o mode_o name_o type_o ts root W ty name r.
+  pose proof (C13_gen_GetCertificates_equiv Cert check_sig check_from bytes_equal is_ca sig_alg raw_tbs
+                sig raw_subj raw_iss abs A SysFS sys_path_o store_dir_o FileInfo lstat_o not_exist_o
+                DirEntry read_dir_o join_o read_file_o mode_o name_o type_o ts root W ty name) as E.
+  cbv zeta in E. fold r in E.
+  pose proof (load_iff (mk_input ty name root)) as LI. cbn [i_root i_ty i_name] in LI.
+  destruct (load (mk_input ty name root)) as [l|c k e].
+  - destruct E as (cs & E & M). split; [|split].
+    + intros cs' E'. rewrite E in E'. inversion E'; subst cs'. rewrite M. now apply LI.
+    + intros l' L. apply LI in L. inversion L; subst l'. exists cs. split; assumption.
+    + intros N. exfalso. apply (N l). now apply LI.
+  - destruct E as [e' E]. split; [|split].
+    + intros cs E'. rewrite E in E'. discriminate.
+    + intros l L. apply LI in L. discriminate.
+    + intros _. exists e'. exact E.
+Qed.
+Print Assumptions C13_gen_GetCertificates_loadable.
